@@ -423,3 +423,57 @@ def rule_recursion_fanout(ctx, rep: Report, rid="Z4"):
     rep.units["alternations_on_recursive_cycles"] = n
     if n < 2:
         raise AnalysisError(f"{rep.prop}/{rid}: {n} alternations on recursive cycles, 2 expected (Namespace, TemplatedType)")
+
+
+def rule_free_text_bounded(ctx, rep: Report, rid="V7"):
+    """Every token class that matches free text (anything that may contain the dialect's own brackets and
+    terminators without looking at them) is bounded by the end of its line or by bracket balance.  An
+    unbounded one turns the deletion of its closing delimiter into an *accepted* file: the token runs on to
+    the next occurrence of that delimiter and the declarations in between vanish into it."""
+    g = ctx.grammar
+    root, _ = parse_root(ctx)
+    structural = set("{}();<>,")
+    n = 0
+    for node in sorted(g.reachable(root), key=lambda x: (x.src, x.uid)):
+        loc = f"{node.src[0]}:{node.src[1]}"
+        args = node.attrs.get("args", [])
+        if node.kind == "CharsNotIn":
+            n += 1
+            excl = args[0] if args and isinstance(args[0], str) and args[0] != "<expr>" else None
+            if excl is None:
+                raise AnalysisError(f"{loc}: CharsNotIn with a non-constant character set")
+            bounded = "\n" in excl or node.attrs.get("max") not in (None, 0) or node.attrs.get("exact") not in (None, 0)
+            rep.add(rid, f"free-text:{ctx_label(g, node)}:CharsNotIn({excl!r}) ends with its line at the latest", bounded,
+                    f"CharsNotIn({excl!r}) matches line breaks and every bracket/terminator except {sorted(excl)}: with the closing "
+                    f"delimiter deleted it runs on to the next {sorted(excl)} anywhere later in the file, the run is accepted and "
+                    f"every declaration in between is dropped (e.g. `#include <a.h` NEWLINE `class X {{...}};` NEWLINE `#include <b.h>` "
+                    f"parses as one include)", loc)
+        elif node.kind == "QuotedString":
+            n += 1
+            ml = node.attrs.get("multiline", False)
+            rep.add(rid, f"free-text:{ctx_label(g, node)}:QuotedString({(args or ['?'])[0]!r}) is single-line", ml in (False, None),
+                    "a multi-line quoted string runs over declarations up to the next quote when its closing quote is deleted", loc)
+        elif node.kind == "Word":
+            n += 1
+            sets = [a for a in args[:2] if isinstance(a, str) and a != "<expr>"]
+            if len(sets) != len(args[:2]):
+                raise AnalysisError(f"{loc}: Word with a non-constant character set")
+            excl = node.attrs.get("excludeChars") or ""
+            chars = set("".join(sets)) - set(excl if isinstance(excl, str) else "")
+            ws = {c for c in chars if c.isspace()}
+            rep.add(rid, f"free-text:{ctx_label(g, node)}:Word matches no white space and none of the dialect's brackets/terminators",
+                    not ws and not (chars & structural),
+                    f"Word accepts {sorted(ws | (chars & structural))}: it can absorb structural characters of the following text", loc,
+                    nontrivial=bool(chars - set("abcdefghijklmnopqrstuvwxyzABCDEFGHIJKLMNOPQRSTUVWXYZ0123456789_")))
+        elif node.kind == "NestedExpr":
+            n += 1
+            rep.add(rid, f"free-text:{ctx_label(g, node)}:nested {node.attrs.get('opener')}..{node.attrs.get('closer')} is bounded by bracket balance",
+                    isinstance(node.attrs.get("opener"), str) and isinstance(node.attrs.get("closer"), str)
+                    and node.attrs.get("opener") != node.attrs.get("closer"),
+                    "opener and closer must be distinct constant delimiters", loc, nontrivial=False)
+        elif node.kind in ("Regex", "SkipTo", "Opaque") or (node.kind == "LayoutSensitive" and node.attrs.get("what") in ("restOfLine", "SkipTo", "Regex", "rest_of_line")):
+            n += 1
+            rep.add(rid, f"free-text:{ctx_label(g, node)}:{node.attrs.get('what', node.kind)} is not used for declaration text", False,
+                    "an unstructured scan (SkipTo / Regex / restOfLine) over declaration text accepts whatever it skips", loc)
+    if n < 8:
+        raise AnalysisError(f"{rep.prop}/{rid}: only {n} free-text token classes found in the grammar (8 expected)")
